@@ -5,9 +5,11 @@
 // running queries, KILL cancels exactly the targeted work, and the
 // Threads_connected / Threads_running status counters agree with the list.
 //
-// Harness-only package; only the exported ProcessList API is used. Sessions, contexts and the status-variable
-// registry are the real ones (sql.NewBaseSessionWithClientServer,
-// sql.NewContext, variables.InitStatusVariables).
+// Harness-only package; only the exported ProcessList API is used. Sessions,
+// contexts and the status-variable registry are the real ones
+// (sql.NewBaseSessionWithClientServer, sql.NewContext,
+// variables.InitStatusVariables); cancellation is observed with ctx.Err() on
+// the contexts BeginQuery / BeginOperation return.
 package c37
 
 import (
@@ -293,7 +295,8 @@ func (w *c37World) check(id string) {
 	nd.Assert(id+".threads-running", ok2 && tr == uint64(m.runningQueries()+m.leakBeginError+m.leakRemoved))
 }
 
-// c37Run: every protocol-conforming history of n steps over the given kinds.
+// c37Run: every protocol-conforming history of n steps; the longest ones only
+// from the richest initial states.
 func c37Run(id string, n, longest int) {
 	// initial state of the two connections: absent, connecting or idle
 	init := [2]int{nd.Pick("init0", 3), nd.Pick("init1", 3)}
